@@ -88,11 +88,17 @@ type kase struct {
 	rec     map[uint64][]kv // full forward scan as of v, taken when v was the latest committed version
 	history []string
 	dead    bool
+	// indexer partition (index.go)
+	idx      []refBlock // committed index entries
+	pendIdx  []refBlock // indexed on the store object, not yet committed
+	blockSeq int
 }
 
 func newCase(o *drv.Out, name string, keys, pfxs [][]byte) *kase {
 	cfg := lib.DefaultConfig()
 	cfg.StoreConfig.LSSCompactionInterval = 0 // compaction is triggered explicitly (and synchronously) by the driver
+	cfg.StoreConfig.IndexByAccount = false    // sender/recipient indexes are not modelled
+	store.VerifPurgeBlockCache()              // the block cache is process-wide: a case starts like a fresh process
 	sI, err := store.NewStoreInMemory(lib.NewNullLogger(), cfg)
 	if err != nil {
 		panic(err)
@@ -330,6 +336,7 @@ func (c *kase) commit() {
 		return
 	}
 	c.ref.commit()
+	c.commitIndex()
 	if res != fmt.Sprintf("ok %d", c.ref.version) {
 		c.fail("C10:commit-version", fmt.Sprintf("Commit answered %q, expected version %d", res, c.ref.version))
 	}
@@ -359,6 +366,7 @@ func (c *kase) rollback(t uint64) {
 		c.fail("C10:rollback-panic", fmt.Sprintf("Rollback(%d) panicked", t))
 		return
 	}
+	old := c.ref.version
 	want := c.ref.rollback(t)
 	if res != want {
 		c.fail("C10:rollback-result", fmt.Sprintf("Rollback(%d) answered %q, expected %q", t, res, want))
@@ -367,6 +375,9 @@ func (c *kase) rollback(t uint64) {
 		if v > c.ref.version {
 			delete(c.rec, v)
 		}
+	}
+	if res == want && res != "err" && t < old {
+		c.rollbackIndex() // a real rollback drops the later index entries and the pending ones
 	}
 }
 
@@ -695,10 +706,20 @@ func (c *kase) run(n int, malformed bool) {
 				}
 				c.pop()
 			}
+			switch r.Intn(10) {
+			case 0: // a block is indexed and the commit abandoned (resetFSM / failed Commit)
+				c.indexPending()
+				c.reset()
+			case 1, 2: // state-only commit
+			default:
+				c.indexPending()
+			}
 			c.commit()
 			if r.Intn(6) == 0 {
 				c.checkHistory()
 			}
+		case x < 820:
+			c.randomIndexRead()
 		case x < 850:
 			c.readAt(c.rver(), c.rkey())
 		case x < 910:
@@ -800,6 +821,7 @@ func Run(o *drv.Out) {
 		nFsm, nRaw, nAdv, ops = 500, 250, 200, 260
 	}
 	witness(o)
+	cacheWitnesses(o)
 	for i := 0; i < nFsm; i++ {
 		keys, pfxs := fsmPool(o)
 		c := newCase(o, fmt.Sprintf("fsm-%d", i), keys, pfxs)
